@@ -1,4 +1,5 @@
 import OpcuaVerif.Lemmas.C41
+import OpcuaVerif.Lemmas.C41Sound
 import OpcuaVerif.Lemmas.C41Samples
 import OpcuaVerif.Generated.ConfigSchema
 
@@ -34,6 +35,22 @@ theorem client_config_roundtrip_partial (d : Doc) (h : wf clientConfig d = true)
 theorem valid_preserved (S : Ty) (Valid : Doc → Prop) (d : Doc) (hS : tyOk S = true) (h : wf S d = true)
     (hv : Valid d) : ∃ d', norm S d = some d' ∧ d' = d ∧ Valid d' :=
   ⟨d, norm_wf S d hS h, rfl, hv⟩
+
+/-- regenerated obligation (attribute rules): `skip_serializing_if = "Option::is_none"` only on `Option`
+fields and string defaults only on `String` fields, in both configuration schemas -/
+theorem schemas_ok_strong : tyOk' serverConfig = true ∧ tyOk' clientConfig = true := by decide
+
+/-- whatever document loads — also hand-edited files with reordered keys, unknown keys, missing optional
+fields, unsorted sets — loads to a typed value … -/
+theorem loaded_is_typed (S : Ty) (d d' : Doc) (hS : tyOk' S = true) (h : norm S d = some d') : wf S d' = true :=
+  norm_sound S d d' hS h
+
+/-- … and saving and loading THAT value again changes nothing (load ∘ save ∘ load = load) -/
+theorem load_save_load_server (d d' : Doc) (h : norm serverConfig d = some d') : norm serverConfig d' = some d' :=
+  norm_wf _ d' schemas_ok.1 (norm_sound _ d d' schemas_ok_strong.1 h)
+
+theorem load_save_load_client (d d' : Doc) (h : norm clientConfig d = some d') : norm clientConfig d' = some d' :=
+  norm_wf _ d' schemas_ok.2 (norm_sound _ d d' schemas_ok_strong.2 h)
 
 /-! ### non-vacuity: two configurations produced by the real code in a correspondence run -/
 
